@@ -189,7 +189,7 @@ func (e *eng) effects(fn *ssa.Function, extra func(in *absint.Interp, args []abs
 			if !c.B {
 				k = "!" + k
 			}
-			ef.conds = append(ef.conds, k)
+			ef.conds = append(ef.conds, absint.CanonCmp(k))
 		}
 		st := cell.V.(*absint.Struct)
 		for n := range fieldSym {
